@@ -28,5 +28,5 @@ def finding_key(c, r):
     return None
 
 LEVEL_TEXT = "Theorems (Props/C07.v): enabling typo tolerance never changes a non-empty answer; every fallback result is an eligible entry the matcher accepted with quality >= the requested threshold, best first, at most the limit, no duplicates; with no threshold an eligible accepted entry is never left without a result. Tied by the engine correspondence (fuzzy on/off pairs); 'the query's characters occur in order' is evaluated in Coq on every real fallback answer."
-LEVEL_NOTE = 'Partial: sahilm/fuzzy is transcribed for ASCII text only (Model/Fuzzy.v: proved never to panic and to report only genuine in-order matches on NUL-free text; compared with the library's raw scores on every case); for non-ASCII text the library's scores stay an oracle and the subsequence property is checked per case. Completeness of the matcher (never empty) is checked per case, not proved. Trusted: Coq kernel; harness.'
+LEVEL_NOTE = 'Partial: sahilm/fuzzy is transcribed for ASCII text only (Model/Fuzzy.v: proved never to panic and to report only genuine in-order matches on NUL-free text; compared with the raw scores of the library on every case); for non-ASCII text the scores of the library stay an oracle and the subsequence property is checked per case. Completeness of the matcher (never empty) is checked per case, not proved. Trusted: Coq kernel; harness.'
 TECHNIQUE = "Coq proof over the engine model + differential correspondence (vm_compute, bit-exact scores)"
